@@ -592,7 +592,9 @@ func c14Linearizable(w *core.W, j int) {
 				case 0:
 					id := int(nextID.Add(1))
 					op.ID = id
-					mux.Handle(pats[op.Pattern], dns.HandlerFunc(func(rw dns.ResponseWriter, _ *dns.Msg) { rw.(*muxRW).msg = &dns.Msg{MsgHdr: dns.MsgHdr{Id: uint16(id)}} }))
+					mux.Handle(pats[op.Pattern], dns.HandlerFunc(func(rw dns.ResponseWriter, _ *dns.Msg) {
+						rw.(*muxRW).msg = &dns.Msg{MsgHdr: dns.MsgHdr{Id: uint16(id)}}
+					}))
 				case 1:
 					mux.HandleRemove(pats[op.Pattern])
 				case 2:
